@@ -12,7 +12,7 @@ ID = "C07"
 RULE = (
     "Hypothesis draws documents from the union of the document families (structural, clip, stroke, cascade biased "
     "towards invisible content - opacity 0, display none, fill none -, gradients shared between shapes and declared "
-    "before/after their templates, mixed) x ndigits 0..6 (the same value in every pass). Oracle (metamorphic): "
+    "before/after their templates and used as stroke paint, opacities whose product rounds to 0, subpaths that return to within a rounding-grid unit of their start, twins, mixed) x ndigits 0..6 (the same value in every pass). Oracle (metamorphic): "
     "o1 = convert(src), o2 = convert(o1), o3 = convert(o2) must be byte-identical, and SVG.fromstring(o1).checkpicosvg() "
     "must report no violation. A first pass that raises is a rejection; a later pass that raises is a violation. "
     "Non-trivial = o1 contains a path and the source used a transform, clip, stroke, gradient, opacity group or an "
